@@ -161,7 +161,8 @@ func buildPlainValueFromElement(elem r.Element) any {
 	case *value.Number:
 		return vv.GetValue()
 	case *value.Array:
-		var resultList []interface{}
+		// NOTE: a nil slice would be written as `null`, an empty list is `[]`
+		resultList := []interface{}{}
 		for _, vi := range vv.GetValue() {
 			resultList = append(resultList, buildPlainValueFromElement(vi))
 		}
